@@ -44,7 +44,7 @@ def targets(seq: str, rule: str) -> List[int]:
 
 def _base(seq: str, pre: List[bool], nt: bool, ct: bool):
     kw: Dict[str, Any] = {}
-    im = {i: [Mod("pre", 1)] for i, f in enumerate(pre) if f}
+    im = {i: ([Mod("pre", 1)] if i % 2 else [Mod("pre", 1), Mod("pre2", 2)]) for i, f in enumerate(pre) if f}   # even positions: two stacked
     if im:
         kw["internal_mods"] = im
     if nt:
@@ -55,7 +55,8 @@ def _base(seq: str, pre: List[bool], nt: bool, ct: bool):
 
 
 def _model(seq, pre, nt, ct):
-    return {"res": [[("pre", 1)] if f else [] for f in pre], "nt": [("preN", 1)] if nt else [], "ct": [("preC", 1)] if ct else []}
+    return {"res": [([("pre", 1)] if i % 2 else [("pre", 1), ("pre2", 2)]) if f else [] for i, f in enumerate(pre)],
+            "nt": [("preN", 1)] if nt else [], "ct": [("preC", 1)] if ct else []}
 
 
 def _dump_model(seq, m):
